@@ -7,9 +7,10 @@ EXTENDS RSM, Json, TLC
 CONSTANT TraceFile
 VARIABLES m,        \* the specification's membership
           sure,     \* FALSE while a request with unknown outcome may or may not have been applied
+          late,     \* requests with unknown outcome (timed out at the client): may still be applied later
           l, bad, cnt
 Trace == ndJsonDeserialize(TraceFile)
-vars == <<m, sure, l, bad, cnt>>
+vars == <<m, sure, late, l, bad, cnt>>
 Flag(ev, what, detail) == bad \cup {<<ev.t, ev.i, what, detail>>}
 PairSet(ps) == {<<ps[k].id, ps[k].addr>> : k \in 1..Len(ps)}
 SetOf(s) == {s[k] : k \in 1..Len(s)}
@@ -18,20 +19,22 @@ Observed(ev) == [v |-> PairSet(ev.nodes), nv |-> PairSet(ev.nonvotings), w |-> P
 CCOf(ev) == [typ |-> ev.typ, id |-> ev.id, addr |-> ev.addr, ccid |-> ev.ccid, init |-> FALSE]
 Same(a, b) == a.v = b.v /\ a.nv = b.nv /\ a.w = b.w /\ a.rm = b.rm
 
-Init == m = EmptyMembers /\ sure = FALSE /\ l = 1 /\ bad = {}
+Init == m = EmptyMembers /\ sure = FALSE /\ late = {} /\ l = 1 /\ bad = {}
         /\ cnt = [requests |-> 0, accepted |-> 0, rejected |-> 0, unknown |-> 0, observations |-> 0]
 
 Next ==
   /\ l <= Len(Trace)
   /\ l' = l + 1
   /\ LET ev == Trace[l] IN
-     CASE ev.ev = "Init" -> m' = EmptyMembers /\ sure' = FALSE /\ UNCHANGED <<bad, cnt>>
-       [] ev.ev = "Panic" -> bad' = Flag(ev, "Panic", {ev.msg}) /\ UNCHANGED <<m, sure, cnt>>
+     CASE ev.ev = "Init" -> m' = EmptyMembers /\ sure' = FALSE /\ late' = {} /\ UNCHANGED <<bad, cnt>>
+       [] ev.ev = "Panic" -> bad' = Flag(ev, "Panic", {ev.msg}) /\ UNCHANGED <<m, sure, late, cnt>>
        [] ev.ev = "Members" ->
             \* the first observation (and the first after an unknown outcome) defines the state
             /\ m' = Observed(ev)
             /\ sure' = TRUE
-            /\ bad' = IF sure /\ ~Same(m, Observed(ev)) THEN Flag(ev, "membership_differs_from_rule_table", {ev.h})
+            /\ late' = {cc \in late : ~Same(CCDo(m, cc, m.ccid), Observed(ev))}
+            /\ bad' = IF sure /\ ~Same(m, Observed(ev)) /\ ~(\E cc \in late : Same(CCDo(m, cc, m.ccid), Observed(ev)))
+                        THEN Flag(ev, "membership_differs_from_rule_table", {ev.h})
                       ELSE IF ~(RemovedNeverMember(Observed(ev)) /\ KindsDisjointM(Observed(ev)) /\ AddressUnique(Observed(ev)))
                         THEN Flag(ev, "malformed_membership", {ev.h}) ELSE bad
             /\ cnt' = [cnt EXCEPT !.observations = @ + 1]
@@ -44,13 +47,13 @@ Next ==
                                   !.unknown = @ + (IF ev.out \notin {"ok", "rejected", "refused"} THEN 1 ELSE 0)]
             /\ IF ev.out = "ok"
                  THEN /\ bad' = IF acc THEN bad ELSE Flag(ev, "accepted_a_change_the_rules_refuse", {ev.typ, ToString(ev.id)})
-                      /\ m' = CCDo(m, cc, m.ccid) /\ sure' = sure     \* the new ccid is learned from the next observation
+                      /\ m' = CCDo(m, cc, m.ccid) /\ sure' = sure /\ late' = late    \* the new ccid is learned from the next observation
                ELSE IF ev.out = "rejected"
                  THEN /\ bad' = IF ~acc THEN bad ELSE Flag(ev, "rejected_a_change_the_rules_accept", {ev.typ, ToString(ev.id)})
-                      /\ UNCHANGED <<m, sure>>
-               ELSE IF ev.out = "refused" THEN UNCHANGED <<m, sure, bad>>
-               ELSE /\ sure' = FALSE /\ UNCHANGED <<m, bad>>
-       [] OTHER -> UNCHANGED <<m, sure, bad, cnt>>
+                      /\ UNCHANGED <<m, sure, late>>
+               ELSE IF ev.out = "refused" THEN UNCHANGED <<m, sure, late, bad>>
+               ELSE /\ sure' = FALSE /\ late' = late \cup {cc} /\ UNCHANGED <<m, bad>>
+       [] OTHER -> UNCHANGED <<m, sure, late, bad, cnt>>
 
 Spec == Init /\ [][Next]_vars
 Report == IF l = Len(Trace) + 1 THEN PrintT(<<"MB-REPORT", Len(Trace), bad>>) /\ PrintT(<<"MB-COUNT", cnt>>) ELSE TRUE
